@@ -1,5 +1,6 @@
 (** C11 — -z is newline mode with the roles of LF and NUL exchanged.  Statements only. *)
-From TucModel Require Import Base.Bytes Base.ListX Model.Scan Model.CutStr Proofs.C11.
+From TucModel Require Import Base.Bytes Base.ListX Model.Bounds Model.Scan Model.Opt Model.CutStr Model.FastLane
+     Proofs.C06 Proofs.C11 Proofs.C11Run.
 
 (** records: reading the exchanged input with the exchanged terminator gives the exchanged records *)
 Theorem C11_records :
@@ -41,6 +42,33 @@ Proof. exact compress_rename. Qed.
 Theorem C11_swap_is_a_renaming : forall a b : byte, swap a = swap b -> a = b.
 Proof. exact swap_injective. Qed.
 
+(** whole runs of the general path (multi-byte delimiters, -g -p -t -s -m -j -r, format text,
+    fallbacks; no regex, no --json): with option texts that hold neither LF nor NUL, running
+    with the other terminator on the input with LF and NUL exchanged gives the exchanged
+    output and the same status *)
+Theorem C11_general_path :
+  forall (o : opt) (input : bytes),
+    o_regex o = None -> o_json o = false -> neutral_texts o ->
+    read_and_cut_str (with_eol (swap (o_eol o)) o) (map swap input)
+    = option_map (rename_outcome swap) (read_and_cut_str o input).
+Proof. exact C11_general_path_swap. Qed.
+
+(** ... more generally under every injective renaming applied to the input and to every
+    option text (the terminator, the delimiter, the replacement, fallbacks, format text) *)
+Theorem C11_general_path_is_value_blind :
+  forall f : byte -> byte, (forall a b, f a = f b -> a = b) ->
+  forall (o : opt) (input : bytes), o_regex o = None -> o_json o = false ->
+    read_and_cut_str (rename_opt f o) (map f input)
+    = option_map (rename_outcome f) (read_and_cut_str o input).
+Proof. exact general_path_rename. Qed.
+
+Theorem C11_fast_lane :
+  forall (o : opt) (l : list bof) (input : bytes),
+    fast_eligible o = true -> from_vec l = Some (o_bounds o) -> Forall item_nz l -> neutral_texts o ->
+    read_and_cut_fast (with_eol (swap (o_eol o)) o) (map swap input)
+    = option_map (rename_outcome swap) (read_and_cut_fast o input).
+Proof. exact C11_fast_lane_swap. Qed.
+
 Print Assumptions C11_records.
 Print Assumptions C11_record_splitting_is_value_blind.
 Print Assumptions C11_field_locations_are_value_blind.
@@ -48,3 +76,6 @@ Print Assumptions C11_greedy_field_locations_are_value_blind.
 Print Assumptions C11_trim_is_value_blind.
 Print Assumptions C11_compress_is_value_blind.
 Print Assumptions C11_swap_is_a_renaming.
+Print Assumptions C11_general_path.
+Print Assumptions C11_general_path_is_value_blind.
+Print Assumptions C11_fast_lane.
